@@ -11,11 +11,31 @@
   The section objects are the ones `ELFFile` builds (`VerSec.mkNeed/mkDef`,
   `VersymSec.mk'` mirror the constructors) with the Spec's structs, which the
   tie theorems (`Props/TieC15.lean`) prove equal to the regenerated ones.
+
+  Fourth wave (second half of this file): the Spec assembler is PROVED to satisfy
+  the layout predicates for every description accepted by the Spec's decidable
+  well-formedness predicates (`Spec/GnuVersionsImage.lean`), the statements are
+  lifted to whole files — `ELFFile(BytesIO(bytes)).get_section(sec)` /
+  `.get_section_by_name(name)` for any byte string carrying a well-formed image
+  (C01's `ElfDesc` / `Layout`), the linked tables reached through `sh_link` — and
+  closed over the image the Spec assembler produces (`*_assembled_exact`: the only
+  hypothesis is the description's well-formedness); chains that end early
+  (`next = 0`) and chains that leave the file are theorems.
+
+  Correspondence-only (no theorem): the model mirrors (`Model/GnuVersions.lean`,
+  `Model/GnuVersionsFile.lean`, `Model/ElfFile.lean`) against the Python source;
+  bytes → str decoding of names; damaged images other than the two classes above
+  (substituted bytes, wrong links, zero counts / entry sizes): model == library only.
 -/
 import PyElf.Spec.GnuVersions
 import PyElf.Model.GnuVersions
 import PyElf.Proofs.GnuVersions
 import PyElf.Proofs.GnuSym
+import PyElf.Proofs.GnuAssembled
+import PyElf.Proofs.GnuVersionsFile
+import PyElf.Proofs.GnuTruncated
+import PyElf.Proofs.GnuExamples
+import PyElf.Props.C01
 import PyElf.Props.TieC15
 namespace PyElf.Props.C15
 open PyElf PyElf.Spec PyElf.Model PyElf.Proofs
@@ -211,5 +231,502 @@ set_option maxRecDepth 100000 in
 example : versymAt true exVersymData 0 4 0 (exRows.map (·.2)) = true := by decide
 set_option maxRecDepth 100000 in
 example : symsAt 64 true exVersymData 8 32 72 0 exRows = true := by decide
+
+/-! ## Fourth wave
+
+  1. the assembler satisfies the layout predicates (`assemble_*_layout`), hence every theorem above in a
+     form whose only hypothesis on the contents is the description's well-formedness
+     (`Spec.C15.needWf` / `defWf` / `versymWf` / `symsWf`: structural conditions on the record list,
+     not the layout predicate evaluated on the output) — `*_carried_exact`;
+  2. whole files: the section objects are the ones `ELFFile(BytesIO(bytes)).get_section(sec)` /
+     `.get_section_by_name(name)` build (`Model.C15.getVerSection`, `getVerSectionByName`), for any byte
+     string carrying (C01's `Layout`) a well-formed image one of whose sections is an assembled version
+     section (`Spec.C15.needFileWf` / `defFileWf` / `versymFileWf`) — `*_file_exact`; and for the image
+     the Spec assembler itself produces, with nothing but the description's well-formedness as
+     hypothesis — `*_assembled_exact`;
+  3. chains that end early (`next = 0` before the declared count is reached: the record is read again)
+     and chains that leave the file (`*_truncated`). -/
+
+section wave4
+open PyElf.Spec.C15 PyElf.Model.C15 PyElf.Proofs.C15
+
+/-! ### 1. the assembler satisfies the layout predicates -/
+
+/-- any byte string that carries the assembled requirement section at `off` and the string table at
+    `strOff` is a layout of the description -/
+theorem assemble_need_layout (le : Bool) (fill : UInt8) (size : Nat) (es : List NeedEntry) (strtab : Bytes)
+    (data rest rest' : Bytes) (off strOff : Nat) (hwf : needWf le strtab es = true)
+    (hd : data.drop off = assembleNeed le fill size es ++ rest) (hs : data.drop strOff = strtab ++ rest') :
+    needLayout le data strOff off es = true :=
+  assembleNeed_layout hwf hd hs
+
+theorem assemble_def_layout (le : Bool) (fill : UInt8) (size : Nat) (es : List DefEntry) (strtab : Bytes)
+    (data rest rest' : Bytes) (off strOff : Nat) (hwf : defWf le strtab es = true)
+    (hd : data.drop off = assembleDef le fill size es ++ rest) (hs : data.drop strOff = strtab ++ rest') :
+    defLayout le data strOff off es = true :=
+  assembleDef_layout hwf hd hs
+
+theorem assemble_versym_layout (le : Bool) (fill : UInt8) (entsize : Nat) (rows : List VersymRow)
+    (data rest : Bytes) (off : Nat) (hwf : versymWf entsize rows = true)
+    (hd : data.drop off = assembleVersym le fill entsize rows ++ rest) :
+    versymAt le data off entsize 0 rows = true := by
+  simp only [versymWf, Bool.and_eq_true, decide_eq_true_eq, List.all_eq_true] at hwf
+  exact assembleVersym_layout hwf.1 rows 0 rest hwf.2 (by rw [Nat.zero_mul, Nat.add_zero]; exact hd)
+
+theorem assemble_syms_layout (cls : Nat) (le : Bool) (fill : UInt8) (entsize : Nat) (rows : List (Sym × VersymRow))
+    (strtab data rest rest' : Bytes) (off strOff : Nat) (hwf : symsWf cls entsize strtab rows = true)
+    (hd : data.drop off = assembleSyms cls le fill entsize (rows.map (·.1)) ++ rest)
+    (hs : data.drop strOff = strtab ++ rest') :
+    symsAt cls le data off entsize strOff 0 rows = true := by
+  simp only [symsWf, Bool.and_eq_true, decide_eq_true_eq, List.all_eq_true] at hwf
+  exact assembleSyms_layout hwf.1 hs rows 0 rest
+    (fun r hr => by have := hwf.2 r hr; simpa [Bool.and_eq_true] using this)
+    (by rw [Nat.zero_mul, Nat.add_zero]; exact hd)
+
+/-- everything the property observes of a requirement section -/
+def NeedObserved (env : Env) (vs : VerSec) (es : List NeedEntry) : Prop :=
+  vs.numVersions = es.length ∧
+  vs.versions env = .ok (es.map NeedEntry.obs) ∧
+  (∀ i, vs.needGetVersion env i
+    = .ok ((needFind i es).map fun ea => (ea.1.r.obs, some ea.1.file, ea.2.r.obs, ea.2.name))) ∧
+  vs.hasIndexes env = .ok (needHasIndexes es)
+
+/-- everything the property observes of a definition section -/
+def DefObserved (env : Env) (vs : VerSec) (es : List DefEntry) : Prop :=
+  vs.numVersions = es.length ∧
+  vs.versions env = .ok (es.map DefEntry.obs) ∧
+  (∀ i, vs.defGetVersion env i = .ok ((defFind i es).map fun e => (e.r.obs, e.auxs.map DefAux.obs)))
+
+/-- everything the property observes of a version-symbol table -/
+def VersymObserved (env : Env) (v : VersymSec) (rows : List (Sym × VersymRow)) : Prop :=
+  v.numSymbols = .ok rows.length ∧
+  v.symbols env = .ok (rows.map fun r => r.2.obs) ∧
+  ∀ (i : Nat) (r : Sym × VersymRow), rows[i]? = some r → v.getSymbol env i = .ok r.2.obs
+
+theorem need_observed (env : Env) (c : ElfCfg) (data : Bytes) (off strOff : Nat) (es : List NeedEntry)
+    (hlen : data.length < 2 ^ 63) (h : needLayout c.le data strOff off es = true) :
+    NeedObserved env (VerSec.mkNeed (Spec.elfStructs c) data off es.length strOff) es :=
+  ⟨rfl, (need_versions_exact env c data off strOff es hlen h).1,
+   need_get_version_exact env c data off strOff es hlen h,
+   need_has_indexes_exact env c data off strOff es hlen h⟩
+
+theorem def_observed (env : Env) (c : ElfCfg) (data : Bytes) (off strOff : Nat) (es : List DefEntry)
+    (hlen : data.length < 2 ^ 63) (h : defLayout c.le data strOff off es = true) :
+    DefObserved env (VerSec.mkDef (Spec.elfStructs c) data off es.length strOff) es :=
+  ⟨rfl, (def_versions_exact env c data off strOff es hlen h).1, def_get_version_exact env c data off strOff es hlen h⟩
+
+/-- `iter_versions` / `num_versions` / `get_version` / `has_indexes` on any byte string that carries the
+    assembled section and its string table: only the description's well-formedness is assumed of the
+    contents -/
+theorem need_carried_exact (env : Env) (c : ElfCfg) (fill : UInt8) (size : Nat) (es : List NeedEntry)
+    (strtab data rest rest' : Bytes) (off strOff : Nat) (hwf : needWf c.le strtab es = true)
+    (hd : data.drop off = assembleNeed c.le fill size es ++ rest) (hs : data.drop strOff = strtab ++ rest')
+    (hlen : data.length < 2 ^ 63) :
+    NeedObserved env (VerSec.mkNeed (Spec.elfStructs c) data off es.length strOff) es :=
+  need_observed env c data off strOff es hlen (assembleNeed_layout hwf hd hs)
+
+theorem def_carried_exact (env : Env) (c : ElfCfg) (fill : UInt8) (size : Nat) (es : List DefEntry)
+    (strtab data rest rest' : Bytes) (off strOff : Nat) (hwf : defWf c.le strtab es = true)
+    (hd : data.drop off = assembleDef c.le fill size es ++ rest) (hs : data.drop strOff = strtab ++ rest')
+    (hlen : data.length < 2 ^ 63) :
+    DefObserved env (VerSec.mkDef (Spec.elfStructs c) data off es.length strOff) es :=
+  def_observed env c data off strOff es hlen (assembleDef_layout hwf hd hs)
+
+theorem versym_carried_exact (env : Env) (henv : EnvVersym env) (c : ElfCfg) (hcls : c.cls = 32 ∨ c.cls = 64)
+    (fill : UInt8) (es symEs : Nat) (rows : List (Sym × VersymRow)) (strtab data rest rest' rest'' : Bytes)
+    (off size symOff symStrOff : Nat)
+    (hv : versymWf es (rows.map (·.2)) = true) (hy : symsWf c.cls symEs strtab rows = true)
+    (hsize : size / es = rows.length)
+    (hd : data.drop off = assembleVersym c.le fill es (rows.map (·.2)) ++ rest)
+    (hsy : data.drop symOff = assembleSyms c.cls c.le fill symEs (rows.map (·.1)) ++ rest')
+    (hs : data.drop symStrOff = strtab ++ rest'') (hlen : data.length < 2 ^ 63) :
+    VersymObserved env (VersymSec.mk' (Spec.elfStructs c) data off size es symOff symEs symStrOff) rows := by
+  have hes : 0 < es := by
+    simp only [versymWf, Bool.and_eq_true, decide_eq_true_eq] at hv
+    omega
+  exact versym_exact env henv c hcls data hlen off size es symOff symEs symStrOff rows hes hsize
+    (assemble_versym_layout c.le fill es _ data rest off hv hd)
+    (assemble_syms_layout c.cls c.le fill symEs rows strtab data rest' rest'' symOff symStrOff hy hsy hs)
+
+/-- non-vacuity: the descriptions of the examples above are well-formed, without looking at any bytes -/
+example : needWf true [0, 0x6c, 0x63, 0, 0x56, 0x31, 0] exNeed = true := by decide
+example : defWf false [0, 0x61, 0, 0x62, 0] exDef = true := by decide      -- the repeated record is written twice
+example : versymWf 4 (exRows.map (·.2)) = true ∧ symsWf 64 32 [0, 0x66, 0] exRows = true := by decide
+/-- … and two records claiming the same bytes differently are rejected (the auxiliary would overwrite the
+    second half of its own entry) -/
+def exClash : List NeedEntry :=
+  [{ r := { version := 1, cnt := 1, file := 0, aux := 8, next := 0 }, file := [],
+     auxs := [{ r := { hash := 7, flags := 0, other := 2, name := 0, next := 0 }, name := [] }] }]
+example : needWf true [0] exClash = false := by decide
+
+/-! ### 2. whole files -/
+
+theorem take_length_of_le {α : Type} (l : List α) {n : Nat} (h : n ≤ l.length) : (l.take n).length = n := by
+  rw [List.length_take]; omega
+
+/-- `ELFFile(BytesIO(bytes)).get_section(sec)` for any byte string carrying a well-formed image whose
+    section `sec` is an assembled version-requirement section declaring `declared` records: a
+    `GNUVerNeedSection` whose `num_versions()`, `iter_versions()`, `get_version(i)` and `has_indexes()`
+    are exactly those of the declared records -/
+theorem need_file_exact (env : Env) (d : ElfDesc) (bytes : Bytes) (sec : Nat) (fill : UInt8) (size : Nat)
+    (es : List NeedEntry) (declared : Nat) (hwf : needFileWf env d sec fill size es declared = true)
+    (hl : Layout d bytes) (hlen : bytes.length < 2 ^ 63) :
+    ∃ f vs, openElf env C01.specStructs C01.specMachineClass bytes = .ok f ∧
+      getVerSection env f sec = .ok (.need vs) ∧ NeedObserved env vs (es.take declared) := by
+  simp only [needFileWf, Bool.and_eq_true, decide_eq_true_eq] at hwf
+  obtain ⟨⟨hz, hdecl⟩, hsec⟩ := hwf
+  have F := verSecAt_unpack hsec
+  obtain ⟨hdr, st, X, hopen⟩ := file_setup hz hl (Nat.lt_of_le_of_lt (Nat.zero_le _) F.hi)
+  obtain ⟨off, strOff, strtab, rest, rest', hlk, hd, hs, hneed, -⟩ := getVerSection_ver X F
+  have hlay := assembleNeed_layout hlk hd hs
+  have hpre : needLayout d.le bytes strOff off (es.take declared) = true :=
+    chainAt_prefix _ _ (es.take declared) (es.drop declared) off (by rw [List.take_append_drop]; exact hlay)
+  have hobs := need_observed env d.cfg bytes off strOff (es.take declared) hlen hpre
+  rw [take_length_of_le es hdecl] at hobs
+  rw [C01.specStructs_eq, C01.specMachineClass_eq]
+  exact ⟨_, _, hopen, hneed rfl, hobs⟩
+
+theorem def_file_exact (env : Env) (d : ElfDesc) (bytes : Bytes) (sec : Nat) (fill : UInt8) (size : Nat)
+    (es : List DefEntry) (declared : Nat) (hwf : defFileWf env d sec fill size es declared = true)
+    (hl : Layout d bytes) (hlen : bytes.length < 2 ^ 63) :
+    ∃ f vs, openElf env C01.specStructs C01.specMachineClass bytes = .ok f ∧
+      getVerSection env f sec = .ok (.def_ vs) ∧ DefObserved env vs (es.take declared) := by
+  simp only [defFileWf, Bool.and_eq_true, decide_eq_true_eq] at hwf
+  obtain ⟨⟨hz, hdecl⟩, hsec⟩ := hwf
+  have F := verSecAt_unpack hsec
+  obtain ⟨hdr, st, X, hopen⟩ := file_setup hz hl (Nat.lt_of_le_of_lt (Nat.zero_le _) F.hi)
+  obtain ⟨off, strOff, strtab, rest, rest', hlk, hd, hs, -, hdef⟩ := getVerSection_ver X F
+  have hlay := assembleDef_layout hlk hd hs
+  have hpre : defLayout d.le bytes strOff off (es.take declared) = true :=
+    chainAt_prefix _ _ (es.take declared) (es.drop declared) off (by rw [List.take_append_drop]; exact hlay)
+  have hobs := def_observed env d.cfg bytes off strOff (es.take declared) hlen hpre
+  rw [take_length_of_le es hdecl] at hobs
+  rw [C01.specStructs_eq, C01.specMachineClass_eq]
+  exact ⟨_, _, hopen, hdef rfl, hobs⟩
+
+/-- the version-symbol table of a whole file: reached through `get_section(sec)`, its symbol table through
+    `sh_link`, the symbol names through the symbol table's `sh_link` -/
+theorem versym_file_exact (env : Env) (henv : EnvVersym env) (d : ElfDesc) (bytes : Bytes) (sec : Nat) (fill : UInt8)
+    (rows : List (Sym × VersymRow)) (slack moreSyms : Bytes)
+    (hwf : versymFileWf env d sec fill rows slack moreSyms = true)
+    (hl : Layout d bytes) (hlen : bytes.length < 2 ^ 63) :
+    ∃ f v, openElf env C01.specStructs C01.specMachineClass bytes = .ok f ∧
+      getVerSection env f sec = .ok (.versym v) ∧ VersymObserved env v rows := by
+  obtain ⟨hz, F⟩ := versymFileWf_unpack hwf
+  obtain ⟨hdr, st, X, hopen⟩ := file_setup hz hl (Nat.lt_of_le_of_lt (Nat.zero_le _) F.hi)
+  obtain ⟨off, size, es, symOff, symEs, symStrOff, hget, hes, hsize, hv, hs⟩ := getVerSection_versym X F
+  rw [C01.specStructs_eq, C01.specMachineClass_eq]
+  exact ⟨_, _, hopen, hget,
+    versym_exact env henv d.cfg X.hw.cls bytes hlen off size es symOff symEs symStrOff rows hes hsize hv hs⟩
+
+/-- `get_section_by_name(name)` is `get_section` of the last section bearing the name, `None` when no
+    section bears it (C01's `lookup_exact`, composed) -/
+theorem by_name_exact (env : Env) (d : ElfDesc) (bytes : Bytes) (obs : ElfObs) (f : ElfFile)
+    (hwf : d.wfZ env = true) (hl : Layout d bytes) (ho : d.observe env = .ok obs)
+    (hf : openElf env C01.specStructs C01.specMachineClass bytes = .ok f) (name : Bytes) :
+    getVerSectionByName env f name =
+      match d.indexOfName name with
+      | none => .ok none
+      | some i => (getVerSection env f i).map some := by
+  rw [C01.specStructs_eq, C01.specMachineClass_eq] at hf
+  exact getVerSectionByName_eq hwf hl ho hf name
+
+theorem observable_ok {env : Env} {d : ElfDesc} (h : observable env d = true) : ∃ obs, d.observe env = .ok obs := by
+  unfold observable at h
+  cases ho : d.observe env with
+  | error e => simp [ho, Except.toOption] at h
+  | ok obs => exact ⟨obs, rfl⟩
+
+/-- by name = by index, for the section the name designates -/
+theorem by_name_of_index (env : Env) (d : ElfDesc) (bytes : Bytes) (f : ElfFile)
+    (hwf : d.wfZ env = true) (hl : Layout d bytes) (hobs : observable env d = true)
+    (hf : openElf env C01.specStructs C01.specMachineClass bytes = .ok f) (name : Bytes) (sec : Nat)
+    (hname : d.indexOfName name = some sec) (obj : VerObj) (hget : getVerSection env f sec = .ok obj) :
+    getVerSectionByName env f name = .ok (some obj) := by
+  obtain ⟨obs, ho⟩ := observable_ok hobs
+  rw [by_name_exact env d bytes obs f hwf hl ho hf name, hname]
+  simp only [hget]
+  rfl
+
+theorem by_name_absent (env : Env) (d : ElfDesc) (bytes : Bytes) (f : ElfFile)
+    (hwf : d.wfZ env = true) (hl : Layout d bytes) (hobs : observable env d = true)
+    (hf : openElf env C01.specStructs C01.specMachineClass bytes = .ok f) (name : Bytes)
+    (hname : d.indexOfName name = none) :
+    getVerSectionByName env f name = .ok none := by
+  obtain ⟨obs, ho⟩ := observable_ok hobs
+  rw [by_name_exact env d bytes obs f hwf hl ho hf name, hname]
+
+/-- the image the Spec assembler produces: nothing but the description's well-formedness is assumed -/
+theorem assembled_image (env : Env) (d : ElfDesc) (tail : Nat) (hz : d.wfZ env = true) (hfit : imageFits d tail = true) :
+    ∃ bytes, d.assemble tail = some bytes ∧ Layout d bytes ∧ bytes.length < 2 ^ 63 := by
+  obtain ⟨rs, hrs, -⟩ := (wfZ_facts hz).disj
+  have hb : ∃ bytes, d.assemble tail = some bytes := by
+    unfold ElfDesc.assemble
+    simp [hrs]
+  obtain ⟨bytes, hb⟩ := hb
+  exact ⟨bytes, hb, C01.assemble_layout_z env d tail bytes hz hb, assemble_length_lt hz hfit hb⟩
+
+theorem need_assembled_exact (env : Env) (d : ElfDesc) (tail sec : Nat) (fill : UInt8) (size : Nat)
+    (es : List NeedEntry) (declared : Nat) (hwf : needFileWf env d sec fill size es declared = true)
+    (hfit : imageFits d tail = true) :
+    ∃ bytes f vs, d.assemble tail = some bytes ∧
+      openElf env C01.specStructs C01.specMachineClass bytes = .ok f ∧
+      getVerSection env f sec = .ok (.need vs) ∧ NeedObserved env vs (es.take declared) := by
+  have hz : d.wfZ env = true := by
+    simp only [needFileWf, Bool.and_eq_true] at hwf
+    exact hwf.1.1
+  obtain ⟨bytes, hb, hl, hlen⟩ := assembled_image env d tail hz hfit
+  obtain ⟨f, vs, h⟩ := need_file_exact env d bytes sec fill size es declared hwf hl hlen
+  exact ⟨bytes, f, vs, hb, h⟩
+
+theorem def_assembled_exact (env : Env) (d : ElfDesc) (tail sec : Nat) (fill : UInt8) (size : Nat)
+    (es : List DefEntry) (declared : Nat) (hwf : defFileWf env d sec fill size es declared = true)
+    (hfit : imageFits d tail = true) :
+    ∃ bytes f vs, d.assemble tail = some bytes ∧
+      openElf env C01.specStructs C01.specMachineClass bytes = .ok f ∧
+      getVerSection env f sec = .ok (.def_ vs) ∧ DefObserved env vs (es.take declared) := by
+  have hz : d.wfZ env = true := by
+    simp only [defFileWf, Bool.and_eq_true] at hwf
+    exact hwf.1.1
+  obtain ⟨bytes, hb, hl, hlen⟩ := assembled_image env d tail hz hfit
+  obtain ⟨f, vs, h⟩ := def_file_exact env d bytes sec fill size es declared hwf hl hlen
+  exact ⟨bytes, f, vs, hb, h⟩
+
+theorem versym_assembled_exact (env : Env) (henv : EnvVersym env) (d : ElfDesc) (tail sec : Nat) (fill : UInt8)
+    (rows : List (Sym × VersymRow)) (slack moreSyms : Bytes)
+    (hwf : versymFileWf env d sec fill rows slack moreSyms = true) (hfit : imageFits d tail = true) :
+    ∃ bytes f v, d.assemble tail = some bytes ∧
+      openElf env C01.specStructs C01.specMachineClass bytes = .ok f ∧
+      getVerSection env f sec = .ok (.versym v) ∧ VersymObserved env v rows := by
+  obtain ⟨hz, -⟩ := versymFileWf_unpack hwf
+  obtain ⟨bytes, hb, hl, hlen⟩ := assembled_image env d tail hz hfit
+  obtain ⟨f, v, h⟩ := versym_file_exact env henv d bytes sec fill rows slack moreSyms hwf hl hlen
+  exact ⟨bytes, f, v, hb, h⟩
+
+/-- `ELFFile(BytesIO(image)).get_section_by_name(name)` for the assembled image, `name` designating (being
+    borne last by) the version section: closed over the description -/
+theorem need_by_name_assembled_exact (env : Env) (d : ElfDesc) (tail sec : Nat) (fill : UInt8) (size : Nat)
+    (es : List NeedEntry) (declared : Nat) (name : Bytes)
+    (hwf : needFileWf env d sec fill size es declared = true) (hobs : observable env d = true)
+    (hfit : imageFits d tail = true) (hname : d.indexOfName name = some sec) :
+    ∃ bytes f vs, d.assemble tail = some bytes ∧
+      openElf env C01.specStructs C01.specMachineClass bytes = .ok f ∧
+      getVerSectionByName env f name = .ok (some (.need vs)) ∧ NeedObserved env vs (es.take declared) := by
+  have hz : d.wfZ env = true := by
+    simp only [needFileWf, Bool.and_eq_true] at hwf
+    exact hwf.1.1
+  obtain ⟨bytes, hb, hl, hlen⟩ := assembled_image env d tail hz hfit
+  obtain ⟨f, vs, hf, hget, hobsv⟩ := need_file_exact env d bytes sec fill size es declared hwf hl hlen
+  exact ⟨bytes, f, vs, hb, hf, by_name_of_index env d bytes f hz hl hobs hf name sec hname _ hget, hobsv⟩
+
+theorem def_by_name_assembled_exact (env : Env) (d : ElfDesc) (tail sec : Nat) (fill : UInt8) (size : Nat)
+    (es : List DefEntry) (declared : Nat) (name : Bytes)
+    (hwf : defFileWf env d sec fill size es declared = true) (hobs : observable env d = true)
+    (hfit : imageFits d tail = true) (hname : d.indexOfName name = some sec) :
+    ∃ bytes f vs, d.assemble tail = some bytes ∧
+      openElf env C01.specStructs C01.specMachineClass bytes = .ok f ∧
+      getVerSectionByName env f name = .ok (some (.def_ vs)) ∧ DefObserved env vs (es.take declared) := by
+  have hz : d.wfZ env = true := by
+    simp only [defFileWf, Bool.and_eq_true] at hwf
+    exact hwf.1.1
+  obtain ⟨bytes, hb, hl, hlen⟩ := assembled_image env d tail hz hfit
+  obtain ⟨f, vs, hf, hget, hobsv⟩ := def_file_exact env d bytes sec fill size es declared hwf hl hlen
+  exact ⟨bytes, f, vs, hb, hf, by_name_of_index env d bytes f hz hl hobs hf name sec hname _ hget, hobsv⟩
+
+theorem versym_by_name_assembled_exact (env : Env) (henv : EnvVersym env) (d : ElfDesc) (tail sec : Nat)
+    (fill : UInt8) (rows : List (Sym × VersymRow)) (slack moreSyms : Bytes) (name : Bytes)
+    (hwf : versymFileWf env d sec fill rows slack moreSyms = true) (hobs : observable env d = true)
+    (hfit : imageFits d tail = true) (hname : d.indexOfName name = some sec) :
+    ∃ bytes f v, d.assemble tail = some bytes ∧
+      openElf env C01.specStructs C01.specMachineClass bytes = .ok f ∧
+      getVerSectionByName env f name = .ok (some (.versym v)) ∧ VersymObserved env v rows := by
+  obtain ⟨hz, -⟩ := versymFileWf_unpack hwf
+  obtain ⟨bytes, hb, hl, hlen⟩ := assembled_image env d tail hz hfit
+  obtain ⟨f, v, hf, hget, hobsv⟩ := versym_file_exact env henv d bytes sec fill rows slack moreSyms hwf hl hlen
+  exact ⟨bytes, f, v, hb, hf, by_name_of_index env d bytes f hz hl hobs hf name sec hname _ hget, hobsv⟩
+
+/-! Non-vacuity of `needFileWf` / `defFileWf` / `versymFileWf` ∧ `imageFits` ∧ `observable` (the hypotheses of
+   the `_file_exact`, `_assembled_exact` and `_by_name_assembled_exact` theorems), with the regenerated
+   environment `Model.elfEnv`.  A kernel-checked `example` is not available, for the same reason as in
+   C01/C09: `ElfDesc.wfZ` goes through `Con.encodeRaw` / `Con.decodeRaw`, which are compiled by well-founded
+   recursion and do not reduce in the kernel.  Instead
+   * three concrete images (below) are evaluated at build time by `#guard` (the Lean evaluator, not the
+     kernel: the build fails if one of them does not satisfy the hypotheses);
+   * the driver evaluates the same predicates on every description of the harness's `file` stream
+     (Driver/C15.lean, kind `file`: `wf` = the `*FileWf` predicate ∧ `imageFits`, `observable`); the harness
+     counts `file:<kind>:wf` — all 450 of a quick run — and aborts the run if it finds none.
+   The contents-level parts (`needWf`, `defWf`, `versymWf`, `symsWf`) are kernel-checked above. -/
+
+/-- null, `.dynstr`, the requirement section of `exNeed` (section 2, linked to 1, declaring 1), `.s` -/
+def exNeedFile : ElfDesc :=
+  exImage 64 true
+    [{ name := [], nameOff := 0, ty := 0 },
+     { name := nDynstr, nameOff := 1, ty := 3, body := some [0, 0x6c, 0x63, 0, 0x56, 0x31, 0] },
+     { name := nVer, nameOff := 9, ty := 0x6ffffffe, link := 1, info := 1,
+       body := some (assembleNeed true 0xAA 64 exNeed) },
+     { name := nShstr, nameOff := 12, ty := 3, body := some exNames }] 3
+#guard needFileWf Model.elfEnv exNeedFile 2 0xAA 64 exNeed 1 && imageFits exNeedFile 5 &&
+  observable Model.elfEnv exNeedFile && exNeedFile.indexOfName nVer == some 2
+
+/-- a 32-bit big-endian image: `.s`, the definition section of `exDef` (section 2, linked to 3) declaring two
+    of its three records, `.dynstr`, and a later section that also bears the name `.v` -/
+def exDefFile : ElfDesc :=
+  exImage 32 false
+    [{ name := [], nameOff := 0, ty := 0 },
+     { name := nShstr, nameOff := 12, ty := 3, body := some exNames },
+     { name := nVer, nameOff := 9, ty := 0x6ffffffd, link := 3, info := 2, body := some (assembleDef false 0 70 exDef) },
+     { name := nDynstr, nameOff := 1, ty := 3, body := some [0, 0x61, 0, 0x62, 0] },
+     { name := nVer, nameOff := 9, ty := 1, body := some [5, 6, 7] }] 1
+#guard defFileWf Model.elfEnv exDefFile 2 0 70 exDef 2 && imageFits exDefFile 0 &&
+  observable Model.elfEnv exDefFile && exDefFile.indexOfName nVer == some 4      -- by name: the later section
+
+/-- `.dynstr`, `.dynsym` (32-byte entries, one more symbol than rows), the version-symbol table of `exRows`
+    (4-byte entries and one byte of slack), `.s` -/
+def exVersymFile : ElfDesc :=
+  exImage 64 true
+    [{ name := [], nameOff := 0, ty := 0 },
+     { name := nDynstr, nameOff := 1, ty := 3, body := some [0, 0x66, 0] },
+     { name := nDynsym, nameOff := 15, ty := 11, link := 1, info := 1, entsize := 32,
+       body := some (assembleSyms 64 true 0 32 (exRows.map (·.1)) ++ List.replicate 32 7) },
+     { name := nVer, nameOff := 9, ty := 0x6fffffff, link := 2, entsize := 4,
+       body := some (assembleVersym true 0 4 (exRows.map (·.2)) ++ [9]) },
+     { name := nShstr, nameOff := 12, ty := 3, body := some exNames }] 4
+#guard versymFileWf Model.elfEnv exVersymFile 3 0 exRows [9] (List.replicate 32 7) && imageFits exVersymFile 0 &&
+  observable Model.elfEnv exVersymFile && exVersymFile.indexOfName nVer == some 3
+
+/-! ### 3. chains that end early, chains that leave the file -/
+
+/-- a chain whose last record has displacement 0 is also the chain with that record repeated: the walk
+    reads the same bytes again (generic: entry chains and auxiliary chains alike) -/
+theorem chain_repeat_last {α : Type} (recAt : Nat → α → Bool) (next : α → Nat) (xs : List α) (x : α) (pos : Nat)
+    (h : chainAt recAt next pos (xs ++ [x]) = true) (h0 : next x = 0) (k : Nat) :
+    chainAt recAt next pos (xs ++ List.replicate (k + 1) x) = true :=
+  chainAt_repeat_last recAt next xs x pos h h0 k
+
+/-- `vn_next = 0` before the declared count (`sh_info`) is reached: every further turn yields that record
+    again -/
+theorem need_next_zero_early (env : Env) (c : ElfCfg) (data : Bytes) (off strOff : Nat) (es : List NeedEntry)
+    (e : NeedEntry) (k : Nat) (hlen : data.length < 2 ^ 63)
+    (h : needLayout c.le data strOff off (es ++ [e]) = true) (h0 : e.r.next = 0) :
+    NeedObserved env (VerSec.mkNeed (Spec.elfStructs c) data off (es.length + (k + 1)) strOff)
+      (es ++ List.replicate (k + 1) e) := by
+  have := need_observed env c data off strOff (es ++ List.replicate (k + 1) e) hlen
+    (chainAt_repeat_last _ _ es e off h h0 k)
+  simpa using this
+
+theorem def_next_zero_early (env : Env) (c : ElfCfg) (data : Bytes) (off strOff : Nat) (es : List DefEntry)
+    (e : DefEntry) (k : Nat) (hlen : data.length < 2 ^ 63)
+    (h : defLayout c.le data strOff off (es ++ [e]) = true) (h0 : e.r.next = 0) :
+    DefObserved env (VerSec.mkDef (Spec.elfStructs c) data off (es.length + (k + 1)) strOff)
+      (es ++ List.replicate (k + 1) e) := by
+  have := def_observed env c data off strOff (es ++ List.replicate (k + 1) e) hlen
+    (chainAt_repeat_last _ _ es e off h h0 k)
+  simpa using this
+
+/-- `vd_cnt` larger than the number of distinct auxiliaries, the last one with `vda_next = 0`: the entry is
+    laid out with that auxiliary repeated up to the count (so every theorem above applies to it) -/
+theorem def_cnt_exceeds_chain (le : Bool) (data : Bytes) (strOff pos : Nat) (e : DefEntry) (as : List DefAux)
+    (a : DefAux) (k : Nat) (hf : e.r.fits = true) (hb : bytesAt data pos (e.r.enc le) = true)
+    (hcnt : e.r.cnt = as.length + (k + 1)) (he : e.auxs = as ++ List.replicate (k + 1) a)
+    (hch : chainAt (DefAux.at le data strOff) (·.r.next) (pos + e.r.aux) (as ++ [a]) = true) (h0 : a.r.next = 0) :
+    DefEntry.at le data strOff pos e = true := by
+  simp only [DefEntry.at, Bool.and_eq_true, decide_eq_true_eq]
+  refine ⟨⟨⟨⟨hf, hb⟩, by rw [hcnt, he]; simp⟩, by omega⟩, ?_⟩
+  rw [he]
+  exact chainAt_repeat_last _ _ as a _ hch h0 k
+
+theorem need_cnt_exceeds_chain (le : Bool) (data : Bytes) (strOff pos : Nat) (e : NeedEntry) (as : List NeedAux)
+    (a : NeedAux) (k : Nat) (hf : e.r.fits = true) (hb : bytesAt data pos (e.r.enc le) = true)
+    (hfile : gv_strAt data (strOff + e.r.file) e.file = true)
+    (hcnt : e.r.cnt = as.length + (k + 1)) (he : e.auxs = as ++ List.replicate (k + 1) a)
+    (hch : chainAt (NeedAux.at le data strOff) (·.r.next) (pos + e.r.aux) (as ++ [a]) = true) (h0 : a.r.next = 0) :
+    NeedEntry.at le data strOff pos e = true := by
+  simp only [NeedEntry.at, Bool.and_eq_true, decide_eq_true_eq]
+  refine ⟨⟨⟨⟨⟨hf, hb⟩, hfile⟩, by rw [hcnt, he]; simp⟩, by omega⟩, ?_⟩
+  rw [he]
+  exact chainAt_repeat_last _ _ as a _ hch h0 k
+
+/-- the section declares more records than are chained before the walk leaves the file (the next record
+    does not fit before the end): the enumeration raises ELFParseError (after yielding the chained
+    entries), `has_indexes()` raises it, and `get_version(i)` returns the carrier if one is chained — the
+    walk never gets further — and raises otherwise -/
+theorem need_truncated (env : Env) (c : ElfCfg) (data : Bytes) (off strOff : Nat) (es : List NeedEntry) (n : Nat)
+    (hlen : data.length < 2 ^ 63) (h : needTruncated c.le data strOff off es n = true) :
+    (VerSec.mkNeed (Spec.elfStructs c) data off n strOff).versions env = .error .elfParseError ∧
+    (∀ i, (VerSec.mkNeed (Spec.elfStructs c) data off n strOff).needGetVersion env i
+      = match needFind i es with
+        | some ea => .ok (some (ea.1.r.obs, some ea.1.file, ea.2.r.obs, ea.2.name))
+        | none => .error .elfParseError) ∧
+    (VerSec.mkNeed (Spec.elfStructs c) data off n strOff).hasIndexes env = .error .elfParseError := by
+  simp only [needTruncated, Bool.and_eq_true, decide_eq_true_eq] at h
+  obtain ⟨⟨h, hn⟩, ht⟩ := h
+  exact ⟨need_versions_truncated_chain env c data off n strOff hlen es off n h hn ht,
+   fun i => needGetLoop_truncated env c data off n strOff hlen i es off n h hn ht,
+   hasIndexesLoop_truncated env c data off n strOff hlen es off n false h hn ht⟩
+
+theorem def_truncated (env : Env) (c : ElfCfg) (data : Bytes) (off strOff : Nat) (es : List DefEntry) (n : Nat)
+    (hlen : data.length < 2 ^ 63) (h : defTruncated c.le data strOff off es n = true) :
+    (VerSec.mkDef (Spec.elfStructs c) data off n strOff).versions env = .error .elfParseError ∧
+    (∀ i, (VerSec.mkDef (Spec.elfStructs c) data off n strOff).defGetVersion env i
+      = match defFind i es with
+        | some e => .ok (some (e.r.obs, e.auxs.map DefAux.obs))
+        | none => .error .elfParseError) := by
+  simp only [defTruncated, Bool.and_eq_true, decide_eq_true_eq] at h
+  obtain ⟨⟨h, hn⟩, ht⟩ := h
+  exact ⟨def_versions_truncated_chain env c data off n strOff hlen es off n h hn ht,
+   fun i => defGetLoop_truncated env c data off n strOff hlen i es off n h hn ht⟩
+
+/-- an entry whose `vn_cnt` / `vd_cnt` exceeds its auxiliary chain, the chain leaving the file
+    (`NeedEntry.atPartial`), reached after the complete entries `es`: the full enumeration raises
+    ELFParseError -/
+theorem need_aux_truncated (env : Env) (c : ElfCfg) (data : Bytes) (off strOff : Nat) (es : List NeedEntry)
+    (e : NeedEntry) (n : Nat) (hlen : data.length < 2 ^ 63) (h : needLayout c.le data strOff off es = true)
+    (hp : NeedEntry.atPartial c.le data strOff (chainEnd (fun e : NeedEntry => e.r.next) off es) e = true)
+    (hn : es.length < n) :
+    (VerSec.mkNeed (Spec.elfStructs c) data off n strOff).versions env = .error .elfParseError :=
+  need_versions_aux_truncated env c data off n strOff hlen es e off n h (needPartial_of hp) hn
+
+/-- `get_version(i)` on such a requirement section: the carrier if it is chained before the walk leaves the
+    file (among the complete entries, or among the chained auxiliaries of the partial entry), ELFParseError
+    otherwise -/
+theorem need_aux_truncated_get (env : Env) (c : ElfCfg) (data : Bytes) (off strOff : Nat) (es : List NeedEntry)
+    (e : NeedEntry) (n : Nat) (hlen : data.length < 2 ^ 63) (h : needLayout c.le data strOff off es = true)
+    (hp : NeedEntry.atPartial c.le data strOff (chainEnd (fun e : NeedEntry => e.r.next) off es) e = true)
+    (hn : es.length < n) (i : Nat) :
+    (VerSec.mkNeed (Spec.elfStructs c) data off n strOff).needGetVersion env i
+      = match needFind i es with
+        | some ea => .ok (some (ea.1.r.obs, some ea.1.file, ea.2.r.obs, ea.2.name))
+        | none =>
+          match e.auxs.find? (fun a => a.r.other == i) with
+          | some a => .ok (some (e.r.obs, some e.file, a.r.obs, a.name))
+          | none => .error .elfParseError :=
+  needGetLoop_aux_truncated env c data off n strOff hlen i es e off n h (needPartial_of hp) hn
+
+theorem def_aux_truncated (env : Env) (c : ElfCfg) (data : Bytes) (off strOff : Nat) (es : List DefEntry)
+    (e : DefEntry) (n : Nat) (hlen : data.length < 2 ^ 63) (h : defLayout c.le data strOff off es = true)
+    (hp : DefEntry.atPartial c.le data strOff (chainEnd (fun e : DefEntry => e.r.next) off es) e = true)
+    (hn : es.length < n) :
+    (VerSec.mkDef (Spec.elfStructs c) data off n strOff).versions env = .error .elfParseError :=
+  def_versions_aux_truncated env c data off n strOff hlen es e off n h (defPartial_of hp) hn
+
+/-- non-vacuity: the requirement of `exNeed` with a displacement that leads out of the 71-byte file … -/
+def exNeedT : List NeedEntry := exNeed.map fun e => { e with r := { e.r with next := 100 } }
+def exNeedTData : Bytes := assembleNeed true 0xAA 64 exNeedT ++ [0, 0x6c, 0x63, 0, 0x56, 0x31, 0]
+set_option maxRecDepth 100000 in
+example : needTruncated true exNeedTData 64 0 exNeedT 2 = true := by decide
+/-- … the same entry declaring three auxiliaries of which two are chained, the third position (the second
+    auxiliary's `vna_next = 60` leads to 44 + 60 = 104) beyond the end … -/
+def exNeedP : NeedEntry :=
+  { r := { version := 1, cnt := 3, file := 1, aux := 20, next := 0 }, file := [0x6c, 0x63],
+    auxs := [{ r := { hash := 7, flags := 0, other := 0x8002, name := 4, next := 24 }, name := [0x56, 0x31] },
+             { r := { hash := 9, flags := 2, other := 3, name := 0, next := 60 }, name := [] }] }
+def exNeedPData : Bytes :=
+  assembleNeed true 0xAA 64 [exNeedP] ++ [0, 0x6c, 0x63, 0, 0x56, 0x31, 0]
+set_option maxRecDepth 100000 in
+example : NeedEntry.atPartial true exNeedPData 64 0 exNeedP = true := by decide
+/-- … and `exDef` is its first entry followed by a record with `vd_next = 0` read twice -/
+example : exDef = [exDef[0]] ++ List.replicate 2 exDef[1] ∧ exDef[1].r.next = 0 := by decide
+
+end wave4
 
 end PyElf.Props.C15
